@@ -8,7 +8,7 @@ RULE = ("cases = corpus (both upstream golden files, D3 reproducer) + seeded con
 
 CFG = {
     "gen_profiles": ["C06"],
-    "cases": {"quick": 260, "thorough": 3000},
+    "cases": {"quick": 800, "thorough": 8000},
     "compare": "full",
     "rule": RULE,
     "nontrivial": lambda body, mout: any("hex:3b30" in op[:40] for op in body) or any((" nb=" in o and " nb=0 " not in o) for o in mout),
@@ -22,7 +22,7 @@ CFG = {
         "run chunk of many 1-runs": r"^note .*\[many-1-runs/R/",
         "single full run 0..=65535": r"^note .*\[full/R/65536\]",
         "array chunk of exactly 4096 / bitset chunk of 4097": r"^note .*/A/4096\]|^note .*/B/4097\]",
-        "empty stream (0 chunks)": r"^note cookie=norun offsets=yes n=0 ",
+        "empty stream (0 chunks)": r"^note cookie=norun offsets=\w+ n=0 ",
         "trailing bytes left unread": r"^deser chk .* => ok rest=[1-9]",
         "== natively built set": r"^eq b0 b1 => true",
         "unchecked decoder agrees": r"^eq b2 b0 => true",
